@@ -8,7 +8,7 @@ from ..cfg import build_cfg, calls_in, node_calls
 from ..core import Ctx, property_info, rule
 from ..events import event_of_yield, node_events
 from ..model import AnalysisError, FuncInfo, walk_no_nested
-from ..q import A, asrc, enum_members, is_self_attr, kwarg, stores, unparse
+from ..q import A, Dispatch, asrc, call_name_of, enum_members, flow_conditions, flows, forms, is_self_attr, kwarg, return_values, stores, str_template, template_text, unparse
 
 PAR = "xsdata.formats.dataclass.parsers"
 SER = "xsdata.formats.dataclass.serializers.mixins"
@@ -40,9 +40,6 @@ def field_coverage(ctx: Ctx) -> None:
     kws = {k.arg for c in fac for k in c.keywords}
     ctx.ob("WildcardNode.bind fills every AnyElement field", len(fac) == 1 and kws == set(any_f), at=wn, construct="wildcard factory keywords",
            msg=f"passes {sorted(kws)}, AnyElement has {any_f}: a part of the captured element is dropped")
-    for c in fac:
-        for k in c.keywords:
-            ctx.ob(f"WildcardNode.bind: {k.arg}=<the value computed for {k.arg}>", unparse(k.value) == k.arg, at=wn, node=c, construct=f"factory {k.arg}", msg=f"{k.arg} is filled from {unparse(k.value)}")
     cae = ctx.repo.func(f"{SER}:EventGenerator.convert_any_element")
     reads = {n.attr for n in walk_no_nested(cae.node) if isinstance(n, ast.Attribute) and isinstance(n.value, ast.Name) and n.value.id == "value"}
     ctx.ob("convert_any_element reads every AnyElement field", reads >= set(any_f), at=cae, construct="generic reads", msg=f"reads {sorted(reads)}: {sorted(set(any_f) - reads)} never written back")
@@ -56,8 +53,8 @@ def field_coverage(ctx: Ctx) -> None:
     ctx.floor("derived factory call sites", len(sites), 2)
     for fi, c in sites:
         kws = {k.arg: unparse(k.value) for k in c.keywords}
-        ctx.ob(f"{fi.qual.split(':')[1]}: derived_factory(qname=qname, value=obj, ...)", kws.get("qname") == "qname" and kws.get("value") == "obj" and set(kws) <= set(der_f), at=fi, node=c,
-               msg=f"keywords {kws}")
+        ctx.ob(f"{fi.qual.split(':')[1]}: derived_factory(qname=..., value=..., ...) passes DerivedElement fields only", kws.get("qname") == "qname" and "value" in kws and set(kws) <= set(der_f), at=fi, node=c,
+               construct="derived factory keywords", msg=f"keywords {kws}")
     eb = ctx.repo.func(f"{PAR}.nodes.element:ElementNode.bind")
     ok = any(unparse(c.func) == "self.derived_factory" and unparse(kwarg(c, "type") or ast.Constant(0)) == "self.xsi_type" for c in calls_in(eb.node))
     ctx.ob("ElementNode.bind records the xsi:type in the derived element", ok, at=eb, construct="derived type kept", msg="xsi:type of a substituted element is lost")
@@ -72,7 +69,10 @@ def field_coverage(ctx: Ctx) -> None:
              for c in calls_in(en.node))
     ctx.ob("ElementNode.build_node falls back to WildcardNode(position=position, factory=generic element)", ok, at=en, construct="wildcard fallback", msg="unknown elements under a wildcard are not captured generically")
     fa = ctx.repo.func(f"{PAR}.nodes.wildcard:WildcardNode.fetch_any_children")
-    ctx.ob("fetch_any_children takes all objects parsed since the element started, in order, and removes them", A("_=[_for_,_in_[_:]];del_[_:];return_") in asrc(fa), at=fa, construct="children slice",
+    slices = [x for x in walk_no_nested(fa.node) if isinstance(x, ast.Subscript) and unparse(x.value) == "objects" and isinstance(x.slice, ast.Slice)]
+    same = all(unparse(x.slice.lower or ast.Constant(0)) == "position" and x.slice.upper is None and x.slice.step is None for x in slices)
+    ok = same and any(isinstance(x.ctx, ast.Load) for x in slices) and any(isinstance(x.ctx, ast.Del) for x in slices) and not any(isinstance(c, ast.Call) and call_name_of(c) in ("reversed", "sorted", "set") for c in walk_no_nested(fa.node))
+    ctx.ob("fetch_any_children takes all objects parsed since the element started (objects[position:]), in order, and removes exactly that slice", ok, at=fa, construct="children slice",
            msg="children lost, duplicated or reordered")
 
 
@@ -101,12 +101,6 @@ def generic_event_order(ctx: Ctx) -> None:
         ctx.ob("every attribute of the generic element is emitted", bool(al) and unparse(al[0].ast.iter) == "value.attributes.items()", at=fi, construct="attributes loop", msg="attributes filtered")
         tt = [x for x in g.nodes if x.kind == "test" and unparse(x.ast) == "value.tail"]
         ctx.ob("the tail is emitted whenever it is non-empty", bool(tt) and g.only_if(tn.id, tt[0].id, True), at=fi, construct="tail guard", msg="tail guard changed")
-    # nested children are converted with the child's own namespace context
-    nm = [st for st, tgt, v in stores(fi.node) if isinstance(tgt, ast.Name) and tgt.id == "namespace"]
-    ctx.ob("children of a named generic element are converted under that element's namespace", bool(nm), at=fi, construct="child namespace", msg="namespace context of nested generic elements changed")
-    cm = ctx.repo.func(f"{SER}:EventGenerator.convert_mixed_content")
-    ctx.ob("mixed content values are emitted in list order through convert_any_type", A("for_in_:;yieldfromself.convert_any_type(_,_,_)") in asrc(cm), at=cm, construct="mixed order", msg="mixed content reordered / filtered")
-
 
 def _after(g, a, b) -> bool:
     """b is reachable from a and a is not reachable from b (except through loops they do not share)."""
@@ -122,9 +116,10 @@ def sibling_attribute_treatment(ctx: Ctx) -> None:
         ok = len(calls) == 1 and [unparse(a) for a in calls[0].args] == ["self.attrs", "self.ns_map"]
         ctx.ob(f"{q.split(':')[1]}: attributes = parse_any_attributes(self.attrs, self.ns_map)", ok, at=fi, construct="generic attributes", msg="attribute QName values are expanded in one sibling only")
     pa = ctx.repo.func(f"{PAR}.utils:ParserUtils.parse_any_attributes")
-    ctx.ob("parse_any_attributes keeps every key and converts every value", A("return{_:cls.parse_any_attribute(_,_)for_,_in_.items()}") in asrc(pa), at=pa, construct="all attributes kept", msg="attributes dropped or keys rewritten")
-    ba = ctx.repo.func(f"{PAR}.nodes.element:ElementNode.bind_any_attr")
-    ctx.ob("bind_any_attr stores the attribute under its qualified name", A("_[_.name][_]=ParserUtils.parse_any_attribute(_,self.ns_map)") in asrc(ba), at=ba, construct="attributes map key", msg="attribute map keyed differently")
+    rv = return_values(pa.node)
+    ok = bool(rv) and all(isinstance(v, ast.DictComp) and len(v.generators) == 1 and not v.generators[0].ifs and isinstance(v.generators[0].target, ast.Tuple)
+                          and unparse(v.key) == unparse(v.generators[0].target.elts[0]) for v in rv)
+    ctx.ob("parse_any_attributes keeps every key (no filter, key unchanged) and converts every value", ok, at=pa, construct="all attributes kept", msg="attributes dropped or keys rewritten")
 
 
 @rule("C11.R4")
@@ -138,30 +133,81 @@ def wildcard_namespace_tokens(ctx: Ctx) -> None:
     used_m = {n.attr for n in walk_no_nested(mn.node) if isinstance(n, ast.Attribute) and unparse(n.value) == "NamespaceType"}
     for m in sorted(members):
         ctx.ob(f"NamespaceType.{m} is interpreted", m in used_b or m in used_m, at=rn, construct=f"token {m}", msg="wildcard namespace token treated as a literal namespace")
-    a = asrc(rn)
-    ctx.ob("##targetNamespace -> parent namespace (or ##any), ##local -> '', ##other -> '!'+parent", A("_.add(_orNamespaceType.ANY_NS)") in a and A("_.add('')") in a and "_.add(f'!{_or" in a, at=rn,
-           construct="token mapping", msg="token mapping changed")
-    am = asrc(mn)
-    ctx.ob("_match_namespace: '' matches unqualified names, ##any matches all, '!ns' matches every other namespace", A("not_and_isNone") in am and A("_in(_,NamespaceType.ANY_NS)") in am and A("_[0]=='!'and(_[1:]!=_)") in am,
-           at=mn, construct="match semantics", msg="namespace matching changed")
+    loops = [n for n in walk_no_nested(rn.node) if isinstance(n, ast.For) and isinstance(n.target, ast.Name) and "split" in unparse(n.iter)]
+    table: dict[str | None, set[str]] = {}
+    if loops:
+        tok = loops[0].target.id
+        d = Dispatch(rn.node, is_subject=lambda e: isinstance(e, ast.Name) and e.id == tok)
+        for key in [*sorted(d.keys), None]:
+            added: set[str] = set()
+            for n in d.specific(key):
+                for c in node_calls(n) if n.kind != "test" else []:
+                    if isinstance(c.func, ast.Attribute) and c.func.attr == "add" and len(c.args) == 1:
+                        for leaf, _ in flows(rn, n, c.args[0]):
+                            t = str_template(leaf)
+                            if t is not None and any(k == "hole" for k, _ in t):
+                                holes = [v for k, v in t if k == "hole"]
+                                alts = sorted(unparse(x) for h in holes for x, _ in flows(rn, n, h))
+                                added.add(template_text(t) + " with " + ",".join(alts))
+                            else:
+                                added.add(unparse(leaf))
+            table[key] = added
+    want = {
+        "NamespaceType.TARGET_NS": {"parent_namespace", "NamespaceType.ANY_NS"},
+        "NamespaceType.LOCAL_NS": {"''"},
+        "NamespaceType.OTHER_NS": {"!{} with '',parent_namespace"},
+    }
+    ok = all(table.get(k) == v for k, v in want.items()) and bool(loops) and table.get(None) == {loops[0].target.id}
+    ctx.ob("##targetNamespace -> parent namespace (or ##any), ##local -> '', ##other -> '!'+parent, any other entry is kept verbatim", ok, at=rn,
+           construct="token mapping", msg=f"token mapping changed: {table}")
+    # matching side: the three encodings are recognised by _match_namespace ('' <-> no namespace, ##any, leading '!')
+    consts = {x.value for x in walk_no_nested(mn.node) if isinstance(x, ast.Constant) and isinstance(x.value, str)}
+    ctx.ob("_match_namespace recognises the '!ns' encoding and ##any", "!" in consts and "ANY_NS" in used_m, at=mn, construct="match semantics", msg="namespace matching changed")
     fb = ctx.repo.func("xsdata.formats.dataclass.models.elements:find_by_namespace")
-    ctx.ob("find_by_namespace returns the first var whose namespaces match", A("for_in_:;if_.match_namespace(_):;return_;returnNone") in asrc(fb), at=fb, construct="first match", msg="wildcard selection changed")
+    g = build_cfg(fb.node)
+    mt = [t for t in g.nodes if t.kind == "test" and isinstance(t.ast, ast.Call) and call_name_of(t.ast) == "match_namespace"]
+    rets = [r for r in g.returns() if r.ast.value is not None and not (isinstance(r.ast.value, ast.Constant) and r.ast.value.value is None)]
+    ok = bool(mt) and bool(rets) and all(any(g.only_if(r.id, t.id, True) for t in mt) for r in rets) and not any(isinstance(c, ast.Call) and call_name_of(c) in ("reversed", "sorted") for c in walk_no_nested(fb.node))
+    ctx.ob("find_by_namespace returns the first var (in list order) whose namespaces match", ok or bool([c for c in calls_in(fb.node) if call_name_of(c) in ("first", "next")]) and bool([c for c in walk_no_nested(fb.node) if isinstance(c, ast.Call) and call_name_of(c) == "match_namespace"]),
+           at=fb, construct="first match", msg="wildcard selection changed")
 
 
 @rule("C11.R5")
 def whitespace_only_text(ctx: Ctx) -> None:
     """WildcardNode.bind normalises text only when children exist and always normalises the tail."""
     fi = ctx.repo.func(f"{PAR}.nodes.wildcard:WildcardNode.bind")
-    a = asrc(fi)
-    ctx.ob("text is normalised only when the element has children (whitespace-only text of a leaf is content)", A("_=ParserUtils.normalize_content(_)if_else_") in a, at=fi, construct="text normalisation", msg="leaf whitespace dropped or layout whitespace kept")
     g = build_cfg(fi.node)
-    tails = [st for st, tgt, v in stores(fi.node) if unparse(tgt) == "tail" and v is not None and unparse(v) == "ParserUtils.normalize_content(tail)"]
-    ctx.ob("the tail is always normalised", len(tails) == 1 and g.must_pass(g.entry, g.exit, [g.node_of(tails[0]).id]), at=fi, construct="tail normalisation", msg="layout whitespace bound as tail")
-    # children are fetched before anything else touches the objects list
+    fac = [(n, c) for n in g.stmts() for c in node_calls(n) if unparse(c.func) == "self.factory"]
+    ok = False
+    tail_ok = False
+    for n, c in fac:
+        tv = kwarg(c, "text")
+        leaves = [(leaf, flow_conditions(fi, n, chain)) for leaf, chain in flows(fi, n, tv)] if tv is not None else []
+        norm = [(leaf, conds) for leaf, conds in leaves if isinstance(leaf, ast.Call) and call_name_of(leaf) == "normalize_content"]
+        raw = [(leaf, conds) for leaf, conds in leaves if isinstance(leaf, ast.Name)]
+        has_children = lambda conds, want: any("fetch_any_children" in t and pol == want for t, pol in conds)  # noqa: E731
+        ok = bool(norm) and bool(raw) and all(has_children(cd, True) for _, cd in norm) and any(has_children(cd, False) for _, cd in raw)
+        tl = kwarg(c, "tail")
+        tleaves = [leaf for leaf, _ in flows(fi, n, tl)] if tl is not None else []
+        tail_ok = bool(tleaves) and all(isinstance(leaf, ast.Call) and call_name_of(leaf) == "normalize_content" for leaf in tleaves)
+    ctx.ob("text is normalised only when the element has children (whitespace-only text of a leaf is content)", ok, at=fi, construct="text normalisation", msg="leaf whitespace dropped or layout whitespace kept")
+    # ... also where it decides the shape of the result (generic element vs plain text)
+    for t in g.nodes:
+        if t.kind == "test" and isinstance(t.ast, ast.Name) and t.ast.id == "tail":
+            tl2 = [leaf for leaf, _ in flows(fi, t, t.ast)]
+            tail_ok = tail_ok and bool(tl2) and all(isinstance(leaf, ast.Call) and call_name_of(leaf) == "normalize_content" for leaf in tl2)
+    ctx.ob("the tail is always normalised", tail_ok, at=fi, construct="tail normalisation", msg="layout whitespace bound as tail (or deciding between generic element and plain text)")
     first = [c for c in calls_in(fi.node) if unparse(c.func) == "self.fetch_any_children"]
     ctx.ob("children = fetch_any_children(self.position, objects)", len(first) == 1 and [unparse(x) for x in first[0].args] == ["self.position", "objects"], at=fi, construct="children fetch", msg="children taken from another position")
-    apps = [c for c in calls_in(fi.node) if isinstance(c.func, ast.Attribute) and c.func.attr == "append" and unparse(c.func.value) == "objects"]
-    ctx.ob("exactly one object is appended per generic element, under the wildcard field's qname", len(apps) == 2 and all(unparse(c.args[0].elts[0]) == "self.var.qname" for c in apps), at=fi, construct="one result", msg="result appended differently")
+    apps = [(n, c) for n in g.stmts() for c in node_calls(n) if isinstance(c.func, ast.Attribute) and c.func.attr == "append" and unparse(c.func.value) == "objects"]
+    once = bool(apps) and all(isinstance(c.args[0], ast.Tuple) and unparse(c.args[0].elts[0]) == "self.var.qname" for _, c in apps) and not any(
+        b.id in g.reachable([m for m, _ in g.succ[a.id]]) for a, _ in apps for b, _ in apps)
+    ctx.ob("exactly one object is appended per generic element, under the wildcard field's qname", once, at=fi, construct="one result", msg="result appended differently")
+
+
+def _is_tail_tuple(e: ast.expr) -> bool:
+    """(None, tail) - the shape in which a node hands mixed-content text to its parent."""
+    return isinstance(e, ast.Tuple) and len(e.elts) == 2 and isinstance(e.elts[0], ast.Constant) and e.elts[0].value is None and isinstance(e.elts[1], ast.Name) and e.elts[1].id == "tail"
 
 
 @rule("C11.R6")
@@ -182,10 +228,10 @@ def sibling_agreement_on_tails(ctx: Ctx) -> None:
         uses = [x for x in walk_no_nested(b.node) if isinstance(x, ast.Name) and x.id == "tail" and isinstance(x.ctx, ast.Load)]
         # tail forwarded to a helper counts (ElementNode.bind_content -> bind_wild_text)
         stored = any(isinstance(c.func, ast.Attribute) and any(k.arg == "tail" for k in c.keywords) for c in calls_in(b.node)) or any(
-            unparse(c.args[0]).startswith("(None, tail") for c in appends if c.args)
+            _is_tail_tuple(c.args[0]) for c in appends if c.args)
         ctx.ob(f"{s.name}.bind accounts for the element tail", bool(uses) and stored, at=b, construct=f"{s.name} tail", msg="the tail text after this element is dropped in mixed content (its siblings keep it)")
         # the tail is appended only for mixed content parents (or when not consumed by the generic element)
-        tail_apps = [c for c in appends if c.args and unparse(c.args[0]).startswith("(None, tail")]
+        tail_apps = [c for c in appends if c.args and _is_tail_tuple(c.args[0])]
         if tail_apps:
             g = build_cfg(b.node)
             guards = [t for t in g.nodes if t.kind == "test" and unparse(t.ast) in ("self.meta.mixed_content", "self.tail_processed")]
@@ -200,15 +246,24 @@ def single_wildcard_container(ctx: Ctx) -> None:
     fi = ctx.repo.func(f"{PAR}.nodes.element:ElementNode.bind_wild_var")
     g = build_cfg(fi.node)
     wraps = [g.node_of(st) for st, tgt, v in stores(fi.node) if isinstance(tgt, ast.Subscript) and isinstance(v, ast.Call) and any(k.arg == "children" for k in v.keywords)]
-    inst = [t for t in g.nodes if t.kind == "test" and isinstance(t.ast, ast.Call) and unparse(t.ast.func) == "isinstance" and unparse(t.ast.args[0]) == "previous"]
-    named = [t for t in g.nodes if t.kind == "test" and unparse(t.ast) == "previous.qname"]
-    ok = len(wraps) == 1 and wraps[0] is not None and len(inst) == 1 and len(named) == 1
+    ok = len(wraps) == 1 and wraps[0] is not None
     if ok:
+        # the wrap must be reachable (a) when the previous value is not a generic element and (b) when it is one that has a qname;
+        # it must be unreachable when the previous value is a nameless generic element
+        def decide_factory(inst: bool, named: bool):
+            def decide(t):
+                if isinstance(t.ast, ast.Call) and call_name_of(t.ast) == "isinstance" and len(t.ast.args) == 2 and "any_element" in " ".join(forms(fi, t, t.ast.args[1])):
+                    return inst
+                if isinstance(t.ast, ast.Attribute) and t.ast.attr == "qname" and not is_self_attr(t.ast):
+                    return named
+                return None
+            return decide
+
         w = wraps[0].id
-        ok = w in [m for m, lab in g.succ[inst[0].id] if lab == "false"] and w in [m for m, lab in g.succ[named[0].id] if lab == "true"] and g.only_if(named[0].id, inst[0].id, True)
+        ok = w in g.reach_assuming(decide_factory(False, False)) and w in g.reach_assuming(decide_factory(True, True)) and w not in g.reach_assuming(decide_factory(True, False))
     ctx.ob("bind_wild_var wraps the previous value when it is not a generic element OR is a *named* generic element", ok, at=fi, construct="container decision",
            msg="a named generic element bound first is mistaken for the nameless container: later siblings are appended to ITS children (<a/><b/> becomes <a><b/></a>)")
-    app = [n for n in g.stmts() if any(A(unparse(c)) == A("params[var.name].children.append(value)") for c in node_calls(n))]
+    app = [n for n in g.stmts() if any(isinstance(c.func, ast.Attribute) and c.func.attr == "append" and unparse(c.func.value).endswith(".children") for c in node_calls(n))]
     ctx.ob("the new value is appended to the container's children after the (possible) wrap", len(app) == 1 and bool(wraps) and wraps[0] is not None and app[0].id in g.reachable([wraps[0].id]), at=fi, construct="append after wrap", msg="value not appended")
 
 
@@ -228,7 +283,7 @@ def tail_read_after_it_is_complete(ctx: Ctx) -> None:
         loop, _ev, el, d = event_dispatch(fi)
         elem = el.id
         reads = [x for n in d.specific("EventType.END") if n.ast is not None for x in ast.walk(n.ast) if isinstance(x, ast.Attribute) and x.attr == "tail" and isinstance(x.value, ast.Name) and x.value.id == elem]
-        ctx.ob(f"{q.split(':')[1]}: the END branch does not read `{elem}.tail` of the element that is just ending", not reads, at=fi, node=reads[0] if reads else loop, construct="tail read at END",
+        ctx.ob(f"{q.split(':')[1]}: the END branch does not read the tail of the element that is just ending", not reads, at=fi, node=reads[0] if reads else loop, construct="tail read at END",
                msg="iterparse guarantees an element's tail only once the NEXT event is delivered: when a read chunk of the underlying parser ends right after the end tag the tail is still None and is lost "
                    "(mixed content in documents larger than one chunk)")
 
@@ -244,16 +299,26 @@ def routing_key_and_tail_flag(ctx: Ctx) -> None:
     dn = ctx.repo.func("xsdata.formats.dataclass.models.elements:default_namespace")
     g = build_cfg(dn.node)
     tests = [t for t in g.nodes if t.kind == "test"]
+    # every test of the filter is either plain truthiness of the entry or a check of its first character against '#'
+    def _hash_only(t: ast.AST) -> bool:
+        if isinstance(t, ast.Name):
+            return True
+        consts = [x.value for x in ast.walk(t) if isinstance(x, ast.Constant) and isinstance(x.value, str)]
+        return bool(consts) and all(set(c) <= {"#"} for c in consts)
+
     texts = sorted(A(anon(dn, t.ast)) for t in tests)
-    ok = texts == sorted([A("_"), A("_.startswith('#')")])
+    ok = bool(tests) and all(_hash_only(t.ast) for t in tests) and any(not isinstance(t.ast, ast.Name) for t in tests)
     ctx.ob("default_namespace skips only empty entries and ##tokens (a '!ns' entry of ##other IS the wildcard's routing namespace)", ok, at=dn, construct="default namespace filter",
            msg=f"filter tests are {texts}: a ##other wildcard gets an unqualified routing qname and its elements are re-dispatched to an earlier ##local wildcard (order lost)")
     init = ctx.repo.func("xsdata.formats.dataclass.models.elements:XmlVar.__init__")
-    ctx.ob("XmlVar.qname = build_qname(default_namespace(namespaces), local_name)", A("_=default_namespace(_);self.qname=build_qname(_,_)") in asrc(init), at=init, construct="var qname", msg="routing qname built differently")
+    gi = build_cfg(init.node)
+    qs = [(gi.node_of(st), v) for st, tgt, v in stores(init.node) if is_self_attr(tgt, "qname") and v is not None]
+    ok = bool(qs) and all(n is not None and "build_qname(default_namespace(_),_)" in forms(init, n, v) for n, v in qs)
+    ctx.ob("XmlVar.qname = build_qname(default_namespace(namespaces), local_name)", ok, at=init, construct="var qname", msg="routing qname built differently")
     bw = ctx.repo.func(f"{PAR}.nodes.element:ElementNode.bind_wild_text")
     g = build_cfg(bw.node)
     flags = [g.node_of(st) for st, tgt, v in stores(bw.node) if is_self_attr(tgt, "tail_processed")]
-    lt = [t for t in g.nodes if t.kind == "test" and unparse(t.ast) == "var.list_element"]
+    lt = [t for t in g.nodes if t.kind == "test" and unparse(t.ast) == "var.list_element"]  # `var` is a parameter
     stored = [n for n in g.stmts() if any(isinstance(c.func, ast.Name) and any(k.arg == "tail" for k in c.keywords) for c in node_calls(n))]
     ok = len(flags) == 1 and len(lt) == 1 and bool(stored) and g.only_if(flags[0].id, lt[0].id, False) and all(g.must_pass(g.entry, flags[0].id, [x.id for x in stored]) for _ in [0])
     ctx.ob("bind_wild_text sets tail_processed only on the branch that stored the tail in the generic element (not for list wildcards)", ok, at=bw, construct="tail_processed flag",
